@@ -425,6 +425,7 @@ def run_property(prop, harnesses, tier, seed, meta, partial=False):
                                      'failed': len([o for o in counted if o['status'] == 'FAILURE'])})
             else:
                 total += len(counted)
+            nknown = 0
             for o in counted:
                 if o['status'] == 'SUCCESS':
                     if not h.bounded:
@@ -434,8 +435,12 @@ def run_property(prop, harnesses, tier, seed, meta, partial=False):
                     k = match_known(known, h.name, o)
                     if k:
                         known_hits.append((h, o, k))
+                        nknown += 1
                     else:
                         violations.append((h, o))
+            if nfail and nknown == nfail:
+                ph['status'] = 'proved except for the recorded known findings'
+            ph['failed_as_known_findings'] = nknown
             if counted and len(samples) < 40:
                 o = counted[min(len(counted) - 1, 1)]
                 samples.append({'harness': h.name, 'obligation': o['name'], 'description': o['description'],
